@@ -626,6 +626,13 @@ func execC11(ci any) (r hx.Result) {
 					}
 					_, _ = iofs.Stat(fs, trimSlash(miss, kind))
 					_, _ = fs.ReadDir(trimSlash(miss, kind))
+					// attribute getters are reading calls too
+					if g, ok := fs.(interface {
+						GetArchiveBit(string) (bool, error)
+					}); ok {
+						_, _ = g.GetArchiveBit(miss)
+						_, _ = g.GetArchiveBit(f2)
+					}
 					return nil
 				})
 			case "open-read":
